@@ -310,7 +310,7 @@ theorem unrepaired_group_ambiguity_witness :
 invalid apiVersion, `metadata.name` in both selectors, unparsable settings, a non-numeric onStartup, an
 invalid or repeated webhook — each makes the conversion fail, wherever it occurs. -/
 theorem rejects (p : String) (d : DocV1)
-    (hbad : (∃ s ∈ d.scheds, s.crontabOK = false) ∨
+    (hbad : (∃ s ∈ d.scheds, s.parseOK = false ∨ zeroStep s.crontab = true) ∨
       (∃ k ∈ d.kubes, k.labelSelOK = false ∨ k.fieldSelOK = false ∨ k.apiVersionOK = false ∨
         (k.nameSelNonEmpty = true ∧ k.fieldSelOnName = true)) ∨
       (∃ a ∈ d.validating, a.labelSelOK = false ∨ a.nsSelOK = false ∨ a.webhookOK = false) ∨
@@ -324,7 +324,7 @@ theorem rejects (p : String) (d : DocV1)
     obtain ⟨hs, ho, hk, -, hsc, hv, hw, hm, -⟩ := convertV1Core_ok true p d e hr
     rcases hbad with ⟨s, hsd, hb⟩ | ⟨k, hkd, hb⟩ | ⟨a, had, hb⟩ | ⟨a, had, hb⟩ | ⟨s, hsd, hb⟩ | hb
     · have := hsc s hsd
-      simp [checkSched, hb] at this
+      rcases hb with hb | hb <;> simp [checkSched, parseCrontabOK, hb] at this
     · have := hk k hkd
       simp only [checkKube, Bool.and_eq_true, Bool.not_eq_true', Bool.and_eq_false_iff] at this
       rcases hb with hb | hb | hb | ⟨hb1, hb2⟩
@@ -348,6 +348,19 @@ theorem rejects (p : String) (d : DocV1)
       · cases hi : s.interval <;> simp [convertSettings, hb, hi] at hs
     · rw [hb] at ho
       simp [convertOnStartup] at ho
+
+/-- **C10 (bad crontab: zero step)** `ParseCrontab` recognises a step that is the number zero — written
+`0`, `00`, `+0`, `-0` — in any field and any comma-separated expression, whatever the cron library would
+say (it never returns on such a crontab); examples of both verdicts. -/
+theorem zero_step_examples :
+    zeroStep "*/0 * * * *" = true ∧ zeroStep "0-59/00 * * * * *" = true ∧ zeroStep "1,2-4/+0 * * * *" = true ∧
+    zeroStep "*\t*/-0 * * *" = true ∧ zeroStep "0 0 1,2-3/0 * *" = true ∧ zeroStep "*/10 * * * *" = false ∧ zeroStep "0 0 * * 0" = false ∧
+    zeroStep "*/1/0 * * * *" = false ∧ zeroStep "*/0x0 * * * *" = false ∧ zeroStep "@every 0s" = false := by
+  decide
+
+theorem rejects_zero_step (p : String) (d : DocV1) (s : SchedV1) (hs : s ∈ d.scheds) (hz : zeroStep s.crontab = true) :
+    ∃ err, convertV1 p d = .error err :=
+  rejects p d (Or.inl ⟨s, hs, Or.inr hz⟩)
 
 /-- **C10 (versions)** No `configVersion` means v0; a value with a schema is that version; every other
 value is unsupported. The versions with a schema are exactly `v0` and `v1`. -/
@@ -392,7 +405,7 @@ theorem convertEventsV0_some (l evs : List String) (h : convertEventsV0 l = some
       · exact h1 ev hev
 
 theorem schedLoopV0_ok (i : Nat) (ss : List SchedV0) (r : List SchedEff) (h : schedLoopV0 i ss = .ok r) :
-    r = ss.map convertSchedV0 ∧ ∀ s ∈ ss, s.crontabOK = true := by
+    r = ss.map convertSchedV0 ∧ ∀ s ∈ ss, parseCrontabOK s.crontab s.parseOK = true := by
   induction ss generalizing i r with
   | nil => simp [schedLoopV0] at h; simp [h]
   | cons s ss ih =>
@@ -445,7 +458,7 @@ theorem v0_conversion (d : DocV0) (e : Effective) (h : convertV0 d = .ok e) :
       d.kubes.map (fun k => (if k.name == "" then "onKubernetesEvent" else k.name, k.allowFailure, "main", k.passthru)) ∧
     e.kubes.map (·.events) = d.kubes.map (fun k => k.events.map (fun ev =>
       if ev == "add" then "Added" else if ev == "update" then "Modified" else "Deleted")) ∧
-    (∀ s ∈ d.scheds, s.crontabOK = true) ∧
+    (∀ s ∈ d.scheds, s.parseOK = true ∧ zeroStep s.crontab = false) ∧
     (∀ k ∈ d.kubes, ∀ ev ∈ k.events, ev = "add" ∨ ev = "update" ∨ ev = "delete") := by
   unfold convertV0 at h
   simp only [bind, Except.bind] at h
@@ -462,7 +475,12 @@ theorem v0_conversion (d : DocV0) (e : Effective) (h : convertV0 d = .ok e) :
   subst h
   obtain ⟨rfl, hsc⟩ := schedLoopV0_ok _ _ _ hs
   obtain ⟨h1, h2, h3⟩ := kubeLoopV0_ok _ _ _ hk
-  refine ⟨?_, h1, h2, hsc, h3⟩
+  refine ⟨?_, h1, h2, ?_, h3⟩
+  case refine_2 =>
+    intro s hs'
+    have := hsc s hs'
+    simp only [parseCrontabOK, Bool.and_eq_true, Bool.not_eq_true'] at this
+    exact ⟨this.2, this.1⟩
   simp only [List.map_map]
   apply List.map_congr_left
   intro s _
